@@ -1,3 +1,176 @@
--- stub: replaced by the property author
+import SupervisorModel.Model.ProcOps
+import SupervisorModel.Lemmas.ProcDefs
+/-
+  C04 — stop requests: right signal, right target, bounded escalation, final.
+  All theorems are about `Sv.Proc` (Model/Proc.lean, Model/ProcOps.lean) whose guards, timers,
+  asserted state lists and call arguments are regenerated from supervisor/process.py.
+-/
+set_option linter.unusedSimpArgs false
+set_option linter.unusedVariables false
 namespace Sv.Props.C04
+open Sv Sv.Proc Sv.Gen.Proc
+
+theorem rollback_facts (cfg : Cfg) (now : Int) (p : Proc) (hs : p.state = .stopping) :
+    (rollback cfg now p).state = .stopping ∧ (rollback cfg now p).pid = p.pid := by
+  simp only [rollback, rollback_g0, rollback_g3, rollback_g5, hs]
+  simp
+  repeat' split
+  all_goals simp_all
+
+/-- the signal target: the child, or its whole process group (negative pid) -/
+def target (asgroup : Bool) (pid : Int) : Int := if asgroup then -pid else pid
+
+/-- **Stop request with a live child** (state STARTING or RUNNING, pid ≠ 0), through the RPC or a
+    group stop: exactly one signal is delivered, it is the configured stopsignal, to the child or —
+    exactly when stopasgroup — to its process group; the process is STOPPING (unless delivery
+    failed for another reason than the child being gone) and the SIGKILL deadline is
+    now + stopwaitsecs. -/
+theorem stop_signals_once (cfg : Cfg) (p : Proc) (now : Int) (kr : KillRes)
+    (hst : p.state = .starting ∨ p.state = .running) (hpid : p.pid ≠ 0) :
+    let r := stop cfg now kr { p := p }
+    r.outs.filter (fun o => match o with | .kill .. => true | _ => false)
+        = [.kill (target cfg.stopasgroup p.pid) cfg.stopsignal] ∧
+    r.err = none ∧
+    (kr ≠ .fail → r.p.state = .stopping ∧ r.p.killing = true ∧ r.p.delay = now + cfg.stopwaitsecs ∧ r.p.pid = p.pid) := by
+  rcases hst with hs | hs <;> cases kr <;> cases hg : cfg.stopasgroup <;>
+    simp [procdefs, hs, hpid, hg, target, signallableStates]
+
+/-- the same through the RPC front door (mood RUNNING): the answer is a success unless delivery failed -/
+theorem rpcStop_signals_once (cfg : Cfg) (p : Proc) (now mood : Int) (kr : KillRes)
+    (hm : ¬ mood < moodRUNNING)
+    (hst : p.state = .starting ∨ p.state = .running) (hpid : p.pid ≠ 0) :
+    let r := rpcStop cfg now mood kr { p := p }
+    r.outs.filter (fun o => match o with | .kill .. => true | _ => false)
+        = [.kill (target cfg.stopasgroup p.pid) cfg.stopsignal] ∧
+    (kr ≠ .fail → r.p.state = .stopping ∧ r.outs.getLast? = some (.answer faultSUCCESS)) := by
+  simp only [moodRUNNING] at hm
+  rcases hst with hs | hs <;> cases kr <;> cases hg : cfg.stopasgroup <;>
+    simp [procdefs, hs, hpid, hg, hm, target, signallableStates, runningStates]
+
+def kills (outs : List Out) : List Out := outs.filter (fun o => match o with | .kill .. => true | _ => false)
+
+/-- the SIGKILL deadline after the clock-rollback adjustment `transition()` applies first -/
+def deadline (cfg : Cfg) (now : Int) (p : Proc) : Int := (rollback cfg now p).delay
+
+theorem deadline_eq (cfg : Cfg) (now : Int) (p : Proc) (hs : p.state = .stopping) :
+    deadline cfg now p =
+      if 0 < p.delay ∧ now < p.delay - cfg.stopwaitsecs then now + cfg.stopwaitsecs else p.delay := by
+  simp [deadline, procdefs, hs]
+  repeat' split
+  all_goals simp_all
+
+/-- **Escalation, exactly.**  A main-loop pass over a STOPPING process with a live child delivers
+    SIGKILL — to the process group exactly when killasgroup — if and only if the (adjusted) deadline
+    has been reached; it delivers nothing else. -/
+theorem sigkill_iff_due (cfg : Cfg) (p : Proc) (now mood : Int) (res : SpawnRes) (kr : KillRes)
+    (hs : p.state = .stopping) (hpid : p.pid ≠ 0) :
+    kills (transition cfg now mood res kr { p := p }).outs =
+      if deadline cfg now p ≤ now then [.kill (target cfg.killasgroup p.pid) sigKILL] else [] := by
+  have hr := rollback_facts cfg now p hs
+  obtain ⟨h1, h2⟩ := hr
+  cases kr <;> cases hg : cfg.killasgroup <;> by_cases hd : (rollback cfg now p).delay ≤ now <;>
+    simp [deadline, hd] <;>
+    simp [transition, autoStart, toRunning, escalate, kill, changeState, assertIn, emit, setP, guard, kills, target,
+      transition_a1, transition_g0, transition_g1, transition_g5, transition_g7, transition_g10, transition_g12, transition_g14,
+      transition_g15, transition_c2_0, kill_g0, kill_g1, kill_g2, kill_g4, kill_a7, kill_a8, kill_a11, kill_a12, kill_a13,
+      kill_a14, kill_a19, kill_a20, kill_c1, kill_c2_0, kill_c3_0, kill_c3_1, kill_c4_0, change_state_g0, change_state_g1,
+      change_state_a0, change_state_a2, announces_all, hs, h1, h2, hpid, hg, hd, sub_le_zero_iff]
+
+/-- never before the deadline: with a positive stopwaitsecs and the deadline still ahead, a pass
+    delivers no signal at all -/
+theorem sigkill_not_early (cfg : Cfg) (p : Proc) (now mood : Int) (res : SpawnRes) (kr : KillRes)
+    (hs : p.state = .stopping) (hpid : p.pid ≠ 0) (hw : 0 < cfg.stopwaitsecs) (hnow : now < p.delay) :
+    kills (transition cfg now mood res kr { p := p }).outs = [] := by
+  rw [sigkill_iff_due cfg p now mood res kr hs hpid, deadline_eq cfg now p hs]
+  repeat' split
+  all_goals first | rfl | omega
+
+/-- at or after the deadline the very next pass delivers SIGKILL -/
+theorem sigkill_when_due (cfg : Cfg) (p : Proc) (now mood : Int) (res : SpawnRes) (kr : KillRes)
+    (hs : p.state = .stopping) (hpid : p.pid ≠ 0) (hw : 0 ≤ cfg.stopwaitsecs) (hnow : p.delay ≤ now) :
+    kills (transition cfg now mood res kr { p := p }).outs = [.kill (target cfg.killasgroup p.pid) sigKILL] := by
+  rw [sigkill_iff_due cfg p now mood res kr hs hpid, deadline_eq cfg now p hs]
+  repeat' split
+  all_goals first | rfl | omega
+
+/-- and re-arms the deadline, so consecutive SIGKILLs are stopwaitsecs apart -/
+theorem sigkill_rearms (cfg : Cfg) (p : Proc) (now mood : Int) (res : SpawnRes) (kr : KillRes)
+    (hs : p.state = .stopping) (hpid : p.pid ≠ 0) (hd : deadline cfg now p ≤ now) (hk : kr ≠ .fail) :
+    let r := transition cfg now mood res kr { p := p }
+    r.p.state = .stopping ∧ r.p.delay = now + cfg.stopwaitsecs ∧ r.p.pid = p.pid ∧ r.err = none := by
+  obtain ⟨h1, h2⟩ := rollback_facts cfg now p hs
+  simp only [deadline] at hd
+  cases kr <;> simp at hk <;>
+    simp [transition, autoStart, toRunning, escalate, kill, changeState, assertIn, emit, setP, guard,
+      transition_a1, transition_g0, transition_g1, transition_g5, transition_g7, transition_g10, transition_g12, transition_g14,
+      transition_g15, transition_c2_0, kill_g0, kill_g1, kill_g2, kill_g4, kill_a7, kill_a8, kill_a11, kill_a12, kill_a13,
+      kill_a14, kill_a19, kill_a20, kill_c1, kill_c2_0, kill_c3_0, kill_c3_1, kill_c4_0, change_state_g0, change_state_g1,
+      change_state_a0, change_state_a2, announces_all, hs, h1, h2, hpid, hd, sub_le_zero_iff]
+
+/-- **A backward clock jump never postpones the escalation beyond stopwaitsecs after the jump**:
+    whatever the old deadline was, after the adjustment every pass (and every stop_report) makes,
+    the deadline is at most now + stopwaitsecs. -/
+theorem rollback_bounded (cfg : Cfg) (p : Proc) (now : Int) (hs : p.state = .stopping)
+    (hw : 0 ≤ cfg.stopwaitsecs) (hd : 0 < p.delay) :
+    deadline cfg now p ≤ now + cfg.stopwaitsecs ∧ deadline cfg now p ≤ p.delay := by
+  rw [deadline_eq cfg now p hs]
+  split <;> omega
+
+/-- **Final.**  When the child of a process being stopped is reaped the process is STOPPED, whatever
+    the exit status, however long it ran. -/
+theorem stopped_whatever_status (cfg : Cfg) (p : Proc) (now es : Int) (busy : Bool)
+    (hs : p.state = .stopping) (hk : p.killing = true) :
+    let r := finish cfg now es busy { p := p }
+    r.p.state = .stopped ∧ r.p.pid = 0 ∧ r.p.killing = false ∧ r.err = none := by
+  have h1 : (rollback cfg now p).state = .stopping := (rollback_facts cfg now p hs).1
+  have h3 : (rollback cfg now p).killing = true := by
+    simp only [rollback, rollback_g0, rollback_g3, rollback_g5, hs]; simp
+    repeat' split
+    all_goals simp_all
+  cases busy <;>
+    simp [finish, finishCore, changeState, assertIn, emit, setP, guard, finish_g1, finish_a2, finish_a7, finish_a8, finish_a9,
+      finish_a20, finish_c0, finish_c1_0, change_state_g0, change_state_g1, change_state_a0, change_state_a2, announces_all,
+      h1, h3]
+
+/-- **A stopped process is never restarted on its own**: no pass forks a child for a STOPPED process
+    that has been started before, whatever autostart/autorestart say. -/
+theorem no_restart_after_stop (cfg : Cfg) (p : Proc) (now mood : Int) (res : SpawnRes) (kr : KillRes)
+    (hs : p.state = .stopped) (hl : p.laststart ≠ 0) :
+    transition cfg now mood res kr { p := p } = { p := p } := by
+  have hr : rollback cfg now p = p := by simp [rollback, rollback_g0, rollback_g3, rollback_g5, rollback_g8, hs]
+  simp [transition, autoStart, toRunning, escalate, setP, guard, hr, hs, hl,
+      transition_a1, transition_g0, transition_g1, transition_g5, transition_g7, transition_g10, transition_g12, transition_g14]
+
+/-- **Stop during BACKOFF cancels the pending retry immediately**: STOPPED in the same operation,
+    no signal. -/
+theorem stop_in_backoff_immediate (cfg : Cfg) (p : Proc) (now mood : Int) (kr : KillRes)
+    (hm : ¬ mood < moodRUNNING) (hs : p.state = .backoff) :
+    let r := rpcStop cfg now mood kr { p := p }
+    r.p.state = .stopped ∧ kills r.outs = [] ∧ r.err = none ∧ r.p.laststart = p.laststart := by
+  simp only [moodRUNNING] at hm
+  cases kr <;> simp [procdefs, hs, hm, kills, runningStates]
+
+/-- a child that exited on its own just before the signal (ESRCH): nothing but the attempt happens;
+    the state stays STOPPING until the exit is reaped -/
+theorem esrch_is_quiet (cfg : Cfg) (p : Proc) (now : Int) (hst : p.state = .starting ∨ p.state = .running)
+    (hpid : p.pid ≠ 0) :
+    stop cfg now .esrch { p := p } = stop cfg now .ok { p := p } := by
+  rcases hst with hs | hs <;> simp [procdefs, hs, hpid]
+
+-- non-vacuity: a concrete RUNNING process, stopped, not yet due, then due
+def cfg0 : Cfg where
+  startsecs := 1024
+  startretries := 3
+  autostart := true
+  autorestart := .unexpected
+  exitcodes := [0]
+  stopsignal := 15
+  stopwaitsecs := 10240
+  stopasgroup := false
+  killasgroup := true
+def p0 : Proc := { state := .running, pid := 42, laststart := 1000 }
+example : (stop cfg0 5000 .ok { p := p0 }).outs = [.ev .stopping .running 42 0 true, .kill 42 15] := by decide +kernel
+example : kills (transition cfg0 6000 1 (.ok 9) .ok { p := (stop cfg0 5000 .ok { p := p0 }).p }).outs = [] := by decide +kernel
+example : kills (transition cfg0 15240 1 (.ok 9) .ok { p := (stop cfg0 5000 .ok { p := p0 }).p }).outs = [.kill (-42) 9] := by decide +kernel
+
 end Sv.Props.C04
